@@ -339,6 +339,7 @@ where
             .ok_or_else(|| anyhow!("Missing auxiliary_polys_next"))?;
 
         if let Some(ctl_zs_first) = ctl_zs_first {
+            ensure!(!ctl_zs_first.is_empty());
             ensure!(ctl_zs_first.len() == num_ctl_zs);
         }
 
@@ -349,6 +350,7 @@ where
         ensure!(auxiliary_polys_cap.is_none());
         ensure!(auxiliary_polys.is_none());
         ensure!(auxiliary_polys_next.is_none());
+        ensure!(ctl_zs_first.is_none());
     }
 
     Ok(())
